@@ -64,9 +64,12 @@ def judge(t):
             if c.ok:
                 attempts[-1]['mods'].append(c.mib)
     for a in attempts:
+        fetch_ok.update(a['mods'])      # registered even if a later module of the same file failed
         if a['ok']:
             fetch_ok.add(a['name'])
-            fetch_ok.update(a['mods'])
+    # a module of a fetched file that never got through the symbol-table stage is a failure under its own name
+    # (a module of a fetched file that fails the symbol-table stage is booked by pysmi under the name the file was
+    # fetched as; eligibility for borrowing is judged for that name)
     if not scn.get('sources'):
         fetch_tried.update(scn['requested'])
     gen_ok = set(c.mib for c in t.by('codegen.genCode') if c.ok)
@@ -228,7 +231,14 @@ def gen_layer2(rng, tier):
             if rng.random() < 0.45:
                 tree[nm + ext] = 'content of %s%s' % (nm, ext)
     kind = rng.choice(['py', 'json', 'anyjson-upper'])
-    return {'layer': 2, 'name': name, 'tree': tree, 'kind': kind, 'genTexts': rng.random() < 0.5, 'req_texts': rng.random() < 0.5,
+    cap = None
+    if rng.random() < 0.3:
+        # a size limit on the borrower's reader; copies around the limit, with multi-byte characters early on
+        cap = rng.choice([16, 24, 40])
+        for fn in list(tree):
+            if rng.random() < 0.7:
+                tree[fn] = ('\u00e9\u6f22 ' * 3 + 'content of %s ' % fn) * rng.choice([1, 1, 2, 3])
+    return {'layer': 2, 'name': name, 'tree': tree, 'kind': kind, 'cap': cap, 'genTexts': rng.random() < 0.5, 'req_texts': rng.random() < 0.5,
             'lowcase': rng.random() < 0.5, 'listing_seed': rng.randrange(1 << 30),
             'rate': {'p': 0.05, 'seed': rng.randrange(1 << 30), 'sites': ['os.stat', 'open', 'file.read', 'os.listdir']} if rng.random() < 0.3 else None}
 
@@ -247,7 +257,7 @@ def run_layer2(scn):
         with core.unhooked():
             os.makedirs(d)
             for fn, content in sorted(scn['tree'].items()):
-                with open(os.path.join(d, fn), 'w') as f:
+                with open(os.path.join(d, fn), 'w', encoding='utf-8') as f:
                     f.write(content)
         w = core.World(root=root, rate=scn.get('rate'), listing_seed=scn.get('listing_seed'))
         reader = FileReader(d)
@@ -259,6 +269,8 @@ def run_layer2(scn):
             exts = ['.json']
         if not scn.get('lowcase'):
             b.setOptions(lowcaseMatching=False)
+        if scn.get('cap'):
+            reader.setOptions(maxMibSize=scn['cap'])
         res = None
         with w:
             w.begin_op(0, 'borrow')
@@ -283,7 +295,7 @@ def run_layer2(scn):
                 V('C19.6-extensions', 'borrower returned unrelated file %s for %s' % (fn, scn['name']), what='unrelated', file=fn)
             if scn['tree'].get(fn) != res[2]:
                 V('C19.3-verbatim', 'borrowed text differs from the file content', what='content')
-        elif res[0] == 'pkgerror' and not w.fired and scn['genTexts'] == scn['req_texts']:
+        elif res[0] == 'pkgerror' and not w.fired and scn['genTexts'] == scn['req_texts'] and not scn.get('cap'):
             # must find it when an exact-name file with the right extension exists
             if (scn['name'] + exts[0]) in scn['tree']:
                 V('C19.6-extensions', 'borrower did not find existing %s%s (%s)' % (scn['name'], exts[0], res[1]), what='not-found')
